@@ -408,3 +408,62 @@ def mkmesh_u(seq, cells, salt=0, use=None):
     ok = q is not None and type(q) is MeshPatt and tuple(q.pattern) == seq and frozenset(q.shading) == cells
     ROUTE_STATS[("m", k, ok)] = ROUTE_STATS.get(("m", k, ok), 0) + 1
     return q if ok else m
+
+
+# ----------------------------------------------------------------------------- public aliases
+# the library's documented alternative names (class-level `alias = method` bindings of perm.py / meshpatt.py at
+# the pinned commit); a call under test is issued through one of its aliases on a deterministic share of lines
+ALIASES = {
+    "to_standard": ["standardize", "from_iterable"],
+    "one_based": ["one", "proper", "scientific"],
+    "identity": ["monotone_increasing"],
+    "compose": ["multiply"],
+    "shift_right": ["shift", "cyclic_shift", "cyclic_shift_right"],
+    "shift_left": ["cyclic_shift_left"],
+    "complement": ["flip_horizontal"],
+    "reverse": ["flip_vertical"],
+    "inverse": ["flip_diagonal"],
+    "is_skew_decomposable": ["skew_decomposable"],
+    "is_sum_decomposable": ["sum_decomposable"],
+    "count_descents": ["num_descents"],
+    "count_ascents": ["num_ascents"],
+    "count_peaks": ["num_peaks", "count_pinnacles", "num_pinnacles"],
+    "count_column_sum_primes": ["num_column_sum_primes"],
+    "count_valleys": ["num_valleys"],
+    "count_ltrmin": ["num_ltrmin"],
+    "count_bonds": ["num_bonds", "bonds"],
+    "count_inc_bonds": ["num_inc_bonds"],
+    "count_dec_bonds": ["num_dec_bonds"],
+    "count_cycles": ["num_cycles"],
+    "is_increasing": ["is_identity"],
+    "block_decomposition": ["all_intervals", "decomposition"],
+    "monotone_block_decomposition": ["all_monotone_intervals"],
+    "maximum_block": ["maximal_interval", "simple_location"],
+    "children": ["shrink_by_one"],
+    "count_rtlmax_ltrmin_layers": ["num_rtlmax_ltrmin_layers"],
+    "count_occurrences_of": ["occurrences"],
+    "apply": ["permute"],
+    "cycle_notation": ["cycles"],
+}
+
+
+def alias(name, key):
+    """the method name itself or one of its public aliases, chosen deterministically from `key`
+    (about a third to a half of the calls go through an alias)"""
+    al = ALIASES.get(name)
+    if not al:
+        return name
+    k = _pick(("alias", name, key), 2 * len(al) + 1)
+    return al[k // 2] if k % 2 == 0 and k < 2 * len(al) else name
+
+
+class ViaAlias:
+    """receiver wrapper: `ViaAlias(obj, key).method(...)` calls `obj.<method or one of its public aliases>(...)`"""
+    __slots__ = ("_o", "_k")
+
+    def __init__(self, o, key):
+        self._o = o
+        self._k = key
+
+    def __getattr__(self, name):
+        return getattr(self._o, alias(name, self._k))
